@@ -37,6 +37,16 @@ declare -A CHECKS=(
  [C14-weight-change-skips-unbonded-validators]="C14"
  [C16-create-accepts-weight-above-max]="C16"
  [C20-redelegations-query-ignores-denom]="C20"
+ [C05-validate-amount-drops-truncation]="C05 C04"
+ [C07-slash-redelegations-stops-at-vanished-destination]="C07 C08"
+ [C08-slash-returns-early-for-emptied-validator]="C08 C07"
+ [C10-weight-change-hook-works-on-copy]="C10 C14"
+ [C11-claim-after-unbond-in-rebalance-down]="C11"
+ [C13-delegate-skips-settlement-for-first-stake-of-asset]="C13"
+ [C15-queue-redelegation-merges-ignoring-source]="C15"
+ [C17-complete-unbondings-pays-zero-coin]="C17 C02"
+ [C18-export-drops-unbondings-completing-now]="C18"
+ [C19-keeper-level-asset-cache]="C19"
 )
 mkdir -p /verif/out/seeded
 ids=("$@"); [ ${#ids[@]} -eq 0 ] && ids=($(ls -d /verif/seeded/*/ | xargs -n1 basename))
